@@ -58,9 +58,11 @@ def expected_minus_two(cfg, recipe):
     for r in refmodel.recipe_nodes(recipe):
         if r["k"] in ("ccAny", "ccXor") and r.get("default"):
             d = r["default"][0]
-            if any(a["k"] != "var" for a in r["args"]):
-                return None                      # alternatives that are rules themselves: the helper is not identified by leaf ids
-            args = [a["id"] for a in r["args"]]
+            try:
+                # alternatives that are rules themselves are named by the id they get when built on their own (explicit or generated from content)
+                args = [a["id"] if a["k"] == "var" else recipes.fresh(a).id for a in r["args"]]
+            except Exception:
+                return None
             if d not in args or len(args) < 2:
                 continue
             comp = sorted(a for a in args if a != d)
